@@ -151,6 +151,19 @@ def build_dataclass(term, reg: Registry):
             ns[fname] = dataclasses.field(**kwargs)
         elif kwargs:
             ns[fname] = dataclasses.field(**kwargs)
+    extras = get_opt(cfg, "extras", [])
+    if "cv" in extras:
+        ann["cv"] = typing.ClassVar[int]
+        ns["cv"] = 4
+    if "iv" in extras:
+        ann["iv"] = dataclasses.InitVar[int]
+        ns["iv"] = 5
+    if extras:
+        def __post_init__(self, iv=5):
+            # members that are not fields must never be fed from the input
+            if iv != 5 or type(self).__dict__.get("cv", 4) != 4 or "cv" in vars(self):
+                raise RuntimeError(f"non-field member read from the input: iv={iv!r} cv={getattr(self, 'cv', None)!r}")
+        ns["__post_init__"] = __post_init__
     ns["__annotations__"] = ann
 
     # ---- Config
@@ -182,7 +195,7 @@ def build_dataclass(term, reg: Registry):
         elif k == "classvars":
             for cv, val in o[1]:
                 ns[cv] = concretize_value(val, reg)
-        elif k in ("mixin", "bases", "redeclared", "sorted_idx", "discr_field", "hooks", "slots", "frozen", "no_config", "generic_params", "module"):
+        elif k in ("mixin", "bases", "redeclared", "sorted_idx", "discr_field", "hooks", "slots", "frozen", "no_config", "generic_params", "module", "extras"):
             pass
         else:
             raise BridgeError(f"unknown cfg option {k}")
